@@ -72,9 +72,24 @@ TFinalize == /\ IsEvent("finalize") /\ Ev.g \in Procs /\ Ev.kt = kt[Ev.g]
              /\ pc' = [pc EXCEPT ![Ev.g] = "finish"]
              /\ ev' = E("order", Ev.g, Ev.kt, "", 0)
              /\ UNCHANGED <<policyOK, clock, cache, cache0, tokenCache, issued, cleanups, nc, kt, tok, res>>
+\* The certificate serial is an identifier chosen by the environment (the CA): nothing relates the
+\* order in which the CA numbers certificates of DIFFERENT certKeys to the order in which their
+\* issuances complete, so the recorded serial is taken as the certificate's identity (Finish with
+\* the identity from the log instead of the model's own counter); it only has to be fresh.
 TIssued == /\ IsEvent("issued") /\ Ev.g \in Procs /\ Ev.o \in Outcomes
-           /\ Finish(Ev.g, Ev.o)
-           /\ (Ev.o # "cafail") => issued' = Ev.serial
+           /\ pc[Ev.g] = "finish"
+           /\ LET k == kt[Ev.g] IN
+              /\ inflight' = [inflight EXCEPT ![k] = @ - 1]
+              /\ IF Ev.o = "ok"
+                 THEN /\ \A k2 \in KeyTypes : st[k2].cert.src = "new" => st[k2].cert.n # Ev.serial
+                      /\ issued' = issued + 1
+                      /\ st' = [st EXCEPT ![k] = [s |-> "ready", owner |-> Ev.g, cert |-> NewCert(Ev.serial, "ok")]]
+                      /\ pc' = [pc EXCEPT ![Ev.g] = "put"] /\ UNCHANGED res
+                 ELSE /\ issued' = IF Ev.o = "badcert" THEN issued + 1 ELSE issued
+                      /\ st' = [st EXCEPT ![k] = [s |-> "failed", owner |-> Ev.g, cert |-> NoCert]]
+                      /\ Err(Ev.g, "issue") /\ pc' = [pc EXCEPT ![Ev.g] = "done"]
+              /\ ev' = E("finish", Ev.g, k, Ev.o, Ev.serial)
+           /\ UNCHANGED <<policyOK, clock, cache, cache0, tokenCache, orders, cleanups, nc, kt, tok, polBefore>>
 \* the owner, or a createCert waiter that found the state ready (CState-as-waiter + CWait fused), stores the certificate
 TCachePut == /\ IsEvent("cacheput") /\ Ev.g \in Procs
              /\ \/ Put(Ev.g)
